@@ -2,8 +2,9 @@
 use std::collections::BTreeMap;
 use std::io::{BufWriter, Write};
 
-/// case tag: `c` for the stable build, `k` for the nightly build (histogram_const)
-pub const TAG: char = if cfg!(feature = "nightly") { 'k' } else { 'c' };
+/// case tag: `c` for the stable release build, `k` for the nightly build (histogram_const), `d` for the dev-profile
+/// build (debug assertions and overflow checks of the crate enabled; thorough tier)
+pub const TAG: char = if cfg!(feature = "nightly") { 'k' } else if cfg!(debug_assertions) { 'd' } else { 'c' };
 
 pub struct Out {
     w: BufWriter<std::io::Stdout>,
